@@ -4,6 +4,7 @@
 #include "vf_main.hpp"
 #include "rec.hpp"
 #include "mcmap.hpp"
+#include "hep/mc-mpi.hpp"
 
 typedef VF_T T;
 using namespace vf;
@@ -210,6 +211,68 @@ void run_one(Cfg c, int integ, std::size_t dims, std::vector<std::size_t> const&
     }
 }
 
+// the same pair through the MPI integrators on the thread shim: every rank has its own recorder and counters; what rank 0 returns is judged
+struct MpiIterCb
+{
+    std::vector<std::uint64_t>* per_iter; Counts* cnt; std::uint64_t* last; Log<T>* log;
+    template <typename C> bool operator()(MPI_Comm, C const&) { per_iter->push_back(cnt->poisoned - *last); *last = cnt->poisoned; log->clear(); return true; }
+};
+
+bool run_one_mpi(Cfg c, int integ, int P, std::uint64_t wseed, std::size_t dims, std::vector<std::size_t> const& calls, std::uint32_t eseed, std::size_t bins, std::size_t channels,
+    std::vector<T> const& weights, Out& o)
+{
+    std::vector<Counts> cnts(P);
+    std::vector<std::vector<std::uint64_t>> per_iter(P);
+    hep::distribution_parameters<T> p1 = hep::make_dist_params<T>(5, T(0), T(1), "one");
+    hep::distribution_parameters<T> p2(3, 4, T(0), T(1), T(0), T(1), "two");
+    hep::distribution_parameters<T> const& dp = c.two_d ? p2 : p1;
+    VfWorld world;
+    vf_mpi_run(world, P, wseed, [&](int rank, MPI_Comm comm) {
+        Log<T> log;
+        RecIntegrand<T> f;
+        f.log = &log;
+        Counts* cnt = &cnts[rank];
+        f.fn = [c, cnt](CallEv<T>& e, Access<T>& a) { return value_fn(c, cnt, e, a); };
+        std::mt19937 eng(eseed);
+        std::uint64_t last = 0;
+        MpiIterCb cbk = {&per_iter[rank], cnt, &last, &log};
+        Out mine;
+        Out& dst = rank == 0 ? o : mine;
+        if (integ == 0)
+        {
+            typedef hep::plain_chkpt_with_rng<std::mt19937, T> chk_t;
+            if (c.has_dist) snapshot(hep::mpi_plain(comm, hep::make_integrand<T>(f, dims, dp), calls, chk_t(eng), cbk), dst);
+            else snapshot(hep::mpi_plain(comm, hep::make_integrand<T>(f, dims), calls, chk_t(eng), cbk), dst);
+        }
+        else if (integ == 1)
+        {
+            typedef hep::vegas_chkpt_with_rng<std::mt19937, T> chk_t;
+            if (c.has_dist) snapshot(hep::mpi_vegas(comm, hep::make_integrand<T>(f, dims, dp), calls, chk_t(eng, bins, T(1.5)), cbk), dst);
+            else snapshot(hep::mpi_vegas(comm, hep::make_integrand<T>(f, dims), calls, chk_t(eng, bins, T(1.5)), cbk), dst);
+        }
+        else
+        {
+            PoisonMap pm;
+            for (std::size_t ch = 0; ch < channels; ++ch) pm.inner.a.push_back(T(ch) * T(0.75));
+            pm.c = c;
+            typedef hep::multi_channel_chkpt_with_rng<std::mt19937, T> chk_t;
+            if (c.has_dist) snapshot(hep::mpi_multi_channel(comm, hep::make_multi_channel_integrand<T>(f, dims, pm, dims, channels, dp), calls, chk_t(eng, weights, T(0.01), T(0.25)), cbk), dst);
+            else snapshot(hep::mpi_multi_channel(comm, hep::make_multi_channel_integrand<T>(f, dims, pm, dims, channels), calls, chk_t(eng, weights, T(0.01), T(0.25)), cbk), dst);
+        }
+    });
+    if (world.aborted || vf_mpi_take_misuse() != 0) return false;
+    o.cnt = Counts();
+    o.poisoned_per_iter.assign(calls.size(), 0);
+    for (int r = 0; r < P; ++r)
+    {
+        o.cnt.poisoned += cnts[r].poisoned;
+        o.cnt.visited += cnts[r].visited;
+        if (per_iter[r].size() != calls.size()) return false;
+        for (std::size_t i = 0; i < calls.size(); ++i) o.poisoned_per_iter[i] += per_iter[r][i];
+    }
+    return true;
+}
+
 void run_case(Rng& rng, std::uint64_t idx)
 {
     int integ = idx % 3;
@@ -242,10 +305,23 @@ void run_case(Rng& rng, std::uint64_t idx)
     info.s("T", tname<T>::get()).s("integrator", names[integ]).u("dims", dims).uv("calls", calls).u("poison_per_mille", c.rate_pm).i("kind", c.kind)
         .s("source", srcs[c.source]).i("map_mode", c.map_mode).b("dist", c.has_dist).b("two_d", c.two_d).u("zero_per_mille", c.zero_pm).u("bins", bins).fv("weights", weights);
     Out A, B;
-    run_one(c, integ, dims, calls, eseed, bins, channels, weights, A);
     Cfg ct = c;
     ct.twin = true;
-    run_one(ct, integ, dims, calls, eseed, bins, channels, weights, B);
+    int P = rng.below(4) == 0 ? int(rng.range(2, 4)) : 1;
+    if (P == 1)
+    {
+        run_one(c, integ, dims, calls, eseed, bins, channels, weights, A);
+        run_one(ct, integ, dims, calls, eseed, bins, channels, weights, B);
+    }
+    else
+    {
+        // both runs of the pair use the same world seed, hence the same reduction orders
+        std::uint64_t wseed = rng.next();
+        info.i("mpi_ranks", P);
+        count("pairs_through_the_mpi_integrators");
+        if (!run_one_mpi(c, integ, P, wseed, dims, calls, eseed, bins, channels, weights, A) || !run_one_mpi(ct, integ, P, wseed, dims, calls, eseed, bins, channels, weights, B))
+        { viol("mpi:collective-mismatch-or-wrong-communicator", info); return; }
+    }
     ++ctx().evaluations;
     count(std::string("pairs_") + names[integ]);
     count(std::string("pairs_source_") + srcs[c.source]);
